@@ -18,7 +18,7 @@ fn per_baseline(t: Tier) -> u64 {
 fn budget(t: Tier) -> u64 {
     match t {
         Tier::Quick => 30 * per_baseline(t),
-        Tier::Thorough => 120 * per_baseline(t),
+        Tier::Thorough => 180 * per_baseline(t),
     }
 }
 
